@@ -951,7 +951,7 @@ func ruleFmt4(c *Ctx) {
 					continue
 				}
 				found := false
-				for caller := range inScope {
+				for _, caller := range scope { // slice order, not map order
 					for _, cc := range core.Calls(caller) {
 						if core.StaticCallee(cc) != fn || l.idx >= len(cc.Common().Args) {
 							continue
@@ -1201,7 +1201,9 @@ func fxErrorSurfaces(fn *ssa.Function, ev ssa.Value) (bool, string) {
 		return false, "the enclosing function has no error result to report a failed write"
 	}
 	// values that carry ev: ev itself, phis it flows into, loads of cells it is stored to
+	// (order keeps them in discovery order: the result must not depend on map iteration)
 	carriers := map[ssa.Value]bool{ev: true}
+	order := []ssa.Value{ev}
 	work := []ssa.Value{ev}
 	for len(work) > 0 {
 		v := work[len(work)-1]
@@ -1214,6 +1216,7 @@ func fxErrorSurfaces(fn *ssa.Function, ev ssa.Value) (bool, string) {
 			case *ssa.Phi:
 				if !carriers[x] {
 					carriers[x] = true
+					order = append(order, x)
 					work = append(work, x)
 				}
 			case *ssa.Store:
@@ -1221,8 +1224,9 @@ func fxErrorSurfaces(fn *ssa.Function, ev ssa.Value) (bool, string) {
 					for _, rr := range *al.Referrers() {
 						if ld, ok := rr.(*ssa.UnOp); ok && ld.Op == token.MUL && !carriers[ld] {
 							for _, s := range core.ReachingStores(al, ld) {
-								if s == v {
+								if s == v && !carriers[ld] {
 									carriers[ld] = true
+									order = append(order, ld)
 									work = append(work, ld)
 								}
 							}
@@ -1232,8 +1236,11 @@ func fxErrorSurfaces(fn *ssa.Function, ev ssa.Value) (bool, string) {
 			}
 		}
 	}
-	tested := false
-	for v := range carriers {
+	// several explanations can hold at once (the error is tested and also returned
+	// as it is): fixed priority — returned, then tested with non-nil failure
+	// returns (first such test in carrier / referrer order), then tested only
+	tested, returned, testedGood := false, false, ""
+	for _, v := range order {
 		if v.Referrers() == nil {
 			continue
 		}
@@ -1241,7 +1248,7 @@ func fxErrorSurfaces(fn *ssa.Function, ev ssa.Value) (bool, string) {
 			switch x := r.(type) {
 			case *ssa.Return:
 				if errIdx < len(x.Results) && x.Results[errIdx] == v {
-					return true, "returned to the caller"
+					returned = true
 				}
 			case *ssa.BinOp:
 				_, neq, ok := core.NilCmp(x)
@@ -1275,12 +1282,18 @@ func fxErrorSurfaces(fn *ssa.Function, ev ssa.Value) (bool, string) {
 							}
 						}
 					}
-					if rets > 0 && good {
-						return true, fmt.Sprintf("tested against nil; the %d return(s) on the failure edge yield a non-nil error", rets)
+					if rets > 0 && good && testedGood == "" {
+						testedGood = fmt.Sprintf("tested against nil; the %d return(s) on the failure edge yield a non-nil error", rets)
 					}
 				}
 			}
 		}
+	}
+	if returned {
+		return true, "returned to the caller"
+	}
+	if testedGood != "" {
+		return true, testedGood
 	}
 	if tested {
 		return false, "the error is tested but a return reachable from the failure edge can yield nil: the failed write is reported as success"
